@@ -1547,7 +1547,7 @@ class TestGraph(object):
 
         while len(to_clone) > 0:
             clone_source, parents, parent_source = to_clone.pop()
-            clones = []
+            clones, new_clones = [], []
 
             logging.debug(
                 "Duplicating test node %s for multiple parents:\n%s",
@@ -1614,6 +1614,7 @@ class TestGraph(object):
                     old_bridges = self.get_nodes("name", child.bridged_form)
                     for old_bridge in old_bridges:
                         child.bridge_with_node(old_bridge)
+                    new_clones.append(child)
 
                 clones.append(child)
 
@@ -1623,10 +1624,11 @@ class TestGraph(object):
             for grandchild in clone_source.cleanup_nodes:
                 to_clone.append((grandchild, clones, clone_source))
             # add roots of overall cloned branches to the returned children
+            # (reused old clones are already in the graph and must not be added again)
             if clone_source == test_node:
-                test_nodes.extend(clones)
+                test_nodes.extend(new_clones)
             else:
-                self.new_nodes(clones)
+                self.new_nodes(new_clones)
 
         return test_nodes
 
